@@ -216,7 +216,7 @@ Fixpoint check_op_ops (ids : list N) (i : nat) (cmax : option Z) (all : list oop
   match ops, obs, model with
   | [], [], _ => []
   | o :: r, oc :: obr, mc :: mr =>
-      let c := spec_composite ids (oop_msgs (firstn (S i) all)) in
+      let c := spec_at ids (firstn (S i) all) in
       let cmax' := match o with
                    | OWm _ _ => Some (match cmax with Some x => Z.max x c | None => c end)
                    | _ => cmax
